@@ -128,6 +128,24 @@ def _run_case(case):
     r = _build(mtexts)
     if not same(base, r):
         raise Violation(f'C15[flag-neutral]: adding !unsafe/!new markers changes the result from {base!r} to {r!r}{src}\nmarked sources:\n' + '\n'.join(mtexts))
+    # ... and with a marker on every single node (each of the three marker kinds in turn, chosen by the case hash)
+    def mark_all(n, which):
+        out = dict(n)
+        if which in (0, 2):
+            out['new'] = True
+        if which in (1, 2):
+            out['unsafe'] = True
+        out.setdefault('mdstyle', 'braces')
+        if n['t'] == 'map':
+            out['items'] = [[k, mark_all(v, which)] for k, v in n['items']]
+        elif n['t'] == 'seq':
+            out['items'] = [mark_all(v, which) for v in n['items']]
+        return out
+    which = len(texts[0]) % 3
+    atexts = [tdoc.render(mark_all(d, which)) for d in docs]
+    r = _build(atexts)
+    if not same(base, r):
+        raise Violation(f'C15[flag-neutral]: marking every node {["!new", "!unsafe", "!new and !unsafe"][which]} changes the result from {base!r} to {r!r}{src}')
     if mtexts != texts:
         labels.add('marked')
     if ptexts != texts:
